@@ -533,3 +533,48 @@ def check_c17(tier, seed, replay=None, selftest=False):
     chk.assumptions += ["one thread runs at a time (sequentially consistent interleavings; x86-TSO reorderings of the plain store are not explored)",
                         "self-test outcomes are injected through link seams on _aes_self_tests/_sha_self_tests"]
     return chk.finish()
+
+
+# ------------------------------------------------------------------------------------------ C12 dispatch
+import gen_disp
+DISP_SRCS = ["main.c", "core.c", "vcall.S", "drv_disp.c"]
+
+
+@reg("C12")
+def check_c12(tier, seed, replay=None, selftest=False):
+    chk = verif.Check("C12", "model_checking", tier, seed)
+    props = {"C12"}
+    exe = build.build_driver("disp", DISP_SRCS)
+    if replay:
+        lines = [x for x in open(replay).read().splitlines() if x and not x.startswith("#")]
+        outs = run_jobs([{"name": "replay", "behaviours": [lines]}], exe, "TraceDispatch")
+        collect(chk, outs, props, marker="Mark")
+        chk.cov.update({"states": 1, "transitions": 1, "traces_validated_against_impl": 1, "samples": [replay]})
+        return chk.finish()
+    cfgs = gen_disp.configs(collapse=(tier == "quick"))
+    beh = [[gen_disp.vcpu_cmd(c), "bindall"] + (["bindtwice"] if i % 16 == 0 else []) for i, c in enumerate(cfgs)]
+    nj = 14
+    jobs = [{"name": "disp-%d" % i, "behaviours": beh[i::nj], "driver": "disp"} for i in range(nj)]
+    outs = run_jobs(jobs, exe, "TraceDispatch")
+    nb, ne = collect(chk, outs, props | {"SPEC"}, marker="Mark")
+    isa_part(chk, exe, tier)
+    _finish_traces(chk, jobs, outs, nb, ne,
+                   "one behaviour = one architecturally consistent CPU/OS configuration (CPUID leaf 1/7 feature bits the resolvers test + "
+                   "XCR0 state bits); the library's own 64 resolvers are executed under the trap flag with CPUID/XGETBV answered from the "
+                   "configuration; TLC checks every binding against Dispatch (family requirements within what the configuration makes "
+                   "executable, one family per shared object, second resolution identical); quick collapses the AVX-512 group-1/group-2 "
+                   "subsets to {all, each one missing, first only, none}, thorough enumerates every subset")
+    chk.cov["configurations"] = len(cfgs)
+    chk.cov["distinct_nontrivial"] = len(cfgs)
+    chk.cov["exhaustive"] = tier != "quick"
+    chk.assumptions += ["extension bits no resolver tests (AES-NI, PCLMULQDQ, SSSE3, POPCNT, BMI2) are outside the property's quantifier and taken as present",
+                        "units without a plain-C fall-back (AES) document SSE4.1 as their minimum"]
+    return chk.finish()
+
+
+def isa_part(chk, exe, tier):
+    try:
+        import isa_req
+    except ImportError:
+        return
+    isa_req.check(chk, exe, tier)
